@@ -1017,9 +1017,10 @@ Section C04.
       pose proof (pass_ok_frame_w root S t s s2 HPk Hint Fw) as HPk2.
       assert (Hg2 : get t s2 = Some (mkFut None (KTask tk2))) by (destruct U2 as (A2 & _); exact A2).
       assert (Hdeps2 : forall e, In e (tk_deps tk2) -> In e (tk_deps tk) \/ In e newd) by (intros e He; apply in_app_or; exact He).
-      destruct (tk_deps tk ++ newd) as [|d0 dl] eqn:Edeps; cbn [c_mode c_st]; (split; [exact HD2|]).
-      + split; [exact HPk2|]. intros tk' Hg' e He. rewrite Hg2 in Hg'. inversion Hg'; subst tk'. exfalso.
-        apply app_eq_nil in Edeps as [E1 E2]. destruct (Hdeps2 e He) as [H|H]; [rewrite E1 in H|rewrite E2 in H]; destruct H.
+      clearbody newd.
+      destruct newd as [|d0 dl]; cbn [c_mode c_st]; (split; [exact HD2|]).
+      + split; [exact HPk2|]. intros tk' Hg' e He. rewrite Hg2 in Hg'. inversion Hg'; subst tk'.
+        destruct (Hdeps2 e He) as [H|[]]. rewrite Hc2. apply Hold1. exact H.
       + exists t, rest. split; [rewrite Htk2; exact Hts|]. split; [exact HPk2|].
         intros tk' Hg' e He Hc. rewrite Hg2 in Hg'. inversion Hg'; subst tk'.
         destruct (Hdeps2 e He) as [He'|He'].
